@@ -326,6 +326,8 @@ def _assembler(S):
                                     spec[ra, rb] = spec[ra, rb] + k[e, a, i, b, j]
             ideal.add_ideal_obligation(S, 'SparseMatrixAssembler.assemble_sparse_stiffness_matrix/entry_is_sum_of_element_entries_with_these_unknown_ranks[%s]' % name,
                                        [], [(tm.lift(K[p_, q_]), spec[p_, q_]) for p_ in range(nU) for q_ in range(nU)])
+            ideal.add_ideal_obligation(S, 'SparseMatrixAssembler.assemble_sparse_stiffness_matrix/assembled_matrix_is_symmetric_for_symmetric_element_blocks[%s]' % name,
+                                       [], [(tm.lift(K[p_, q_]), tm.lift(K[q_, p_])) for p_ in range(nU) for q_ in range(p_ + 1, nU)] or [(tm.ZERO, tm.ZERO)])
     finally:
         SMA.coo_matrix = old
     # conformance of the dependency stub with the real scipy on concrete data
